@@ -161,6 +161,8 @@ def js_features(h, skind):
     """F120: global referenced by name before the handler reads/writes it; F20: string object index printed as a plain JS string;
     the C03 classes (raw jump pseudo-statements appear in the JavaScript as well)"""
     f = set(L.c03_classes(h[3:]))
+    if "F152" in L.c03_prop_loop_classes(h[3:]):
+        f.add("F152")      # `repeat with <declared property> = a to b` stays in its lowered form: a while loop instead of the for loop
     # F141: a local variable, a parameter or (plain scripts: functions) the handler itself is named by a JavaScript reserved word
     reserved = set(L.JS_RESERVED_IDS) | (set(L.JS_STRICT_RESERVED_IDS) if skind != "plain" else set())
     if (any(isinstance(t, list) and len(t) == 2 and t[0] in ("l", "p") and t[1] in reserved for t in L.walk(h[3:]))
@@ -480,6 +482,7 @@ def cases(rng, tier):
     scripts += tell_scripts(rng, dict(quick=150, thorough=3000, search=1500)[tier])
     scripts += shared_node_scripts(rng, dict(quick=120, thorough=2500, search=1200)[tier])
     scripts += renamed_function_scripts(rng, tier)
+    scripts += [dict(tree=x["tree"], pre=[], kind="loop-variable-kinds") for x in c03.property_loop_scripts(tier)]
     scripts += [dict(tree=x["tree"], pre=[], kind="condition-forms") for x in c03.condition_form_scripts(tier, with_starts=True)]
     scripts += L.border_scripts(rng, tier)
     for sc in scripts:
